@@ -644,10 +644,13 @@ impl Hub {
         .map_err(s("routes"))?;
 
         // vault network
+        // contracts whose InstantiateMsg NAMES the owner are deployed by somebody else: the configured owner is
+        // the one the message names, not whoever happened to send it
+        let deployer = Addr::unchecked("deployer");
         let vault_factory = app
             .instantiate_contract(
                 vfac_id,
-                o.clone(),
+                deployer.clone(),
                 &vf::InstantiateMsg {
                     owner: o.to_string(),
                     vault_id,
@@ -684,7 +687,7 @@ impl Hub {
         let vault_router = app
             .instantiate_contract(
                 vrouter_id,
-                o.clone(),
+                deployer.clone(),
                 &vr::InstantiateMsg { owner: o.to_string(), vault_factory_addr: vault_factory.to_string() },
                 &[],
                 "vault_router",
